@@ -22,7 +22,7 @@ import re
 
 from harness.lib import common, emb  # noqa: F401  (emb puts REPO on sys.path)
 
-from compiler.front_end import glue
+from compiler.front_end import glue, symbol_resolver
 from compiler.util import ir_data, ir_data_utils, ir_util, test_util, traverse_ir, error as emb_error
 
 PROP = "C12"
@@ -204,6 +204,17 @@ def real_errors(errors):
     return out
 
 
+def model_errors_all(jerrs, L):
+    """All model errors in order (the flat model's extra `Duplicate name 'this'` excluded)."""
+    out = []
+    for e in jerrs:
+        if e[0] == "dup" and e[1] == "this":
+            continue
+        f, s, _syn = L.tab[e[2]]
+        out.append((e[0], e[1], f, s, tuple(sorted((L.tab[i][0], L.tab[i][1]) for i in e[3:]))))
+    return out
+
+
 def model_errors(jerrs, L):
     """Model error list → (visible, hidden) in the real_errors form."""
     vis, hid = [], []
@@ -242,6 +253,16 @@ def observe(files, main="m.emb"):
     desc, L, refs_raw, frefs_raw = extract(pre)
     o["desc"], o["L"] = desc, L
     o["plain_mask"] = [not r.has_field("canonical_name") for (r, _m, _t, _a) in refs_raw]
+    # the resolver's own error list, before glue.process_ir splits off the groups with a
+    # synthetic location
+    try:
+        raw = symbol_resolver.resolve_symbols(ir_data_utils.copy(pre))
+        o["s1_raw"] = real_errors(raw)
+        user, hidden = emb_error.split_errors(raw)
+        o["hidden_only"] = bool(hidden) and not user
+    except Exception:  # noqa: BLE001
+        o["s1_raw"] = None
+        o["hidden_only"] = False
     s1, e1, x1 = run_to(ir0, STAGE_SYMBOLS)
     o["s1_exc"], o["s1_errors"] = x1, real_errors(e1)
     o["s1_ir"] = s1
@@ -281,8 +302,11 @@ def compare_model(o, ans):
             o["s1_exc"], o["s1_errors"][:2])]
     if "errors" in ans:
         vis, hid = model_errors(ans["errors"], L)
+        if o.get("s1_raw") is not None and model_errors_all(ans["errors"], L) != o["s1_raw"]:
+            return ["resolve_symbols raw errors (hidden ones included): model %r real %r" % (
+                model_errors_all(ans["errors"], L), o["s1_raw"])]
         if not vis:
-            return []          # only deferred (synthetic) errors: the pipeline goes on; nothing to compare
+            return []          # only deferred (synthetic) errors: the pipeline goes on; nothing more to compare
         if o["s1_exc"] is not None:
             return ["model: errors %r; real: exception %r" % (vis, o["s1_exc"])]
         if vis != o["s1_errors"]:
@@ -1431,6 +1455,10 @@ CORPUS = [
     ({"m.emb": "struct Foo:\n  0 [+1]  UInt  long_name (ln)\nstruct Bar:\n  0 [+Foo.ln]  UInt  y\n"}, "static reference through an abbreviation"),
 ]
 
+# narrow predicate: every error resolve_symbols reported has a synthetic location (a name inside
+# an anonymous `bits:`), so glue.process_ir defers it and goes on with unresolved references
+HIDDEN_KEY = "resolver-errors-all-hidden-as-synthetic"
+
 # pinned inputs of known findings: (key, files, stage)
 FINDING_INPUTS = {
     "crash:symbol_resolver.py:_resolve_field_reference:AttributeError":
@@ -1442,6 +1470,9 @@ FINDING_INPUTS = {
         {"m.emb": "[requires: Foo.BAR]\nenum Foo:\n  BAR = 1\n"},
     "crash:synthetics.py:_add_anonymous_aliases:AssertionError":
         {"m.emb": "struct Foo:\n  0 [+4]  struct  bar:\n    0 [+1]  bits:\n      0 [+1]  Flag  xx\n"},
+    HIDDEN_KEY:
+        {"m.emb": 'import "imp.emb" as foo\nstruct Xyz:\n  0 [+1]  bits:\n    0 [+4]  UInt  foo\n    4 [+foo]  UInt  baz\n',
+         "imp.emb": "struct Baz:\n  0 [+1]  UInt  q\n"},
 }
 
 
@@ -1475,6 +1506,8 @@ def evaluate(chk, cases, model_ok, label):
                                         "expected": "unique canonical names; find_object(canonical d) = d"})
         if c.get("case") is not None:
             for (key, msg) in check_oracle(c["case"], o, chk):
+                if o.get("hidden_only"):
+                    key = HIDDEN_KEY
                 chk.violation("input", {"input": c["files"], "observed": msg,
                                         "expected": "binding designated by the scoping rules, or rejection"},
                               key=key)
@@ -1482,7 +1515,12 @@ def evaluate(chk, cases, model_ok, label):
             exc = first_exception(o)
             if exc is not None:
                 chk.violation("input", {"input": c["files"], "observed": "exception %r" % (exc,),
-                                        "expected": "IR or located errors"}, key=exc_key(exc))
+                                        "expected": "IR or located errors"},
+                              key=HIDDEN_KEY if o.get("hidden_only") else exc_key(exc))
+            elif o.get("hidden_only"):
+                chk.violation("input", {"input": c["files"],
+                                        "observed": "resolve_symbols reported only errors that error.split_errors hides: %r" % (o["s1_raw"],),
+                                        "expected": "a visible error"}, key=HIDDEN_KEY)
     if not model_ok:
         return obs
     idx = [i for i, o in enumerate(obs) if o["stage"] == "resolver"]
@@ -1598,6 +1636,10 @@ def known_findings(chk):
         ir, errs, exc = emb.compile_text(files)
         if exc is not None and exc_key(exc) == k["key"]:
             chk.report_known(k)
+        elif k["key"] == HIDDEN_KEY:
+            o = observe(files)
+            if o.get("hidden_only") and (exc is not None or not errs):
+                chk.report_known(k)
 
 
 def generated_cases(r, n, size):
